@@ -350,6 +350,8 @@ REJECTS = [
     ('nsig_gt_P', lambda P: dict(NSIG=P + 3)),
     ('nsig_noninteger', lambda P: dict(NSIG=P - 1.5 if P >= 2 else 0.5)),
     ('nsig_and_threshold', lambda P: dict(NSIG=1 if P >= 2 else 0, threshold=2.0)),
+    ('nsig_zero_and_threshold', lambda P: dict(NSIG=0, threshold=2.0)),          # the legal boundary value 0 is still an explicit dimension
+    ('nsig_and_threshold_1', lambda P: dict(NSIG=max(P - 1, 0), threshold=1.0)),
     ('threshold_lt_1', lambda P: dict(threshold=0.5)),
     ('threshold_zero', lambda P: dict(threshold=0.0)),
     ('threshold_negative', lambda P: dict(threshold=-3.0)),
